@@ -5,7 +5,7 @@ CONSTANTS
   B = 2
   MaxFail = 1
   MaxCancel = 0
-  Defects = {"LateSubmit"}
+  Defects = {}
   RankOf <- Ranks
 
 CHECK_DEADLOCK FALSE
